@@ -232,6 +232,17 @@ def main(argv=None) -> int:
     try:
         prove(run, ctx, prop)
         ctx.widen = bool(ctx.proof_failures)
+        # tie, part 3: fingerprints of the functions this property's models mirror.  A change is never a violation; it means the
+        # hand model may have drifted from the code, so every correspondence / oracle of the property runs with the widened budget.
+        try:
+            from . import fingerprints
+            fp = fingerprints.changed_for(prop)
+            run.cov["fingerprints"] = {**fp, "changed": fp["changed"][:40]}
+            if fp["changed"] and os.environ.get("VERIF_NO_FP_BOOST") != "1":
+                ctx.widen = True
+                run.notes.append(f"{len(fp['changed'])} watched function(s) differ from the fingerprint baseline {fp.get('baseline_commit')}: widened budgets")
+        except Exception as e:   # infrastructure only
+            run.notes.append(f"fingerprints unavailable: {type(e).__name__}: {e}")
         mod.check(run, ctx)
         if (ctx.proof_failures or ctx.corr_failures) and not run.violations:
             # A broken proof / correspondence is not itself a violation: search for a failing input.
